@@ -128,7 +128,9 @@ func (r *Ring[T]) At(n int) *Ring[T] {
 	}
 
 	cur := r
-	for n > 0 {
+	// Here n >= 0, except that the most negative int is its own negation; in
+	// either case walking until n reaches zero or the ring wraps is correct.
+	for n != 0 {
 		cur = next(cur)
 		if cur == r {
 			return nil
